@@ -77,6 +77,7 @@ func Load(scen *gen.Scenario, seed int64) (r *Runner, err error) {
 		}
 	}()
 	src := NewSources(seed)
+	src.Coarse = int64(scen.Coarse)
 	src.Install()
 	source, err := static.NewSource(scen.AssetsJSON())
 	if err != nil {
